@@ -2,9 +2,12 @@ package main
 
 import (
 	"fmt"
+	"os"
+	"path/filepath"
 	"strings"
 	"sync"
 	"sync/atomic"
+	"time"
 
 	"github.com/metal-toolbox/audito-maldito/internal/common"
 
@@ -502,6 +505,14 @@ func checkC16(r *vlib.Run) int {
 	r.Require(discarded > 1000 && kept > 1000 && corrKept > 1000, "too few discard/keep predictions exercised")
 	if r.Thorough() {
 		c16Realtime(r)
+	}
+	// the scaled build exists when ./check could overlay the interval constant
+	if _, err := os.Stat(filepath.Join(vlib.VerifDir, "build", "mon-scaled")); err == nil {
+		rt := runChildren(r, "mon-scaled", "c16rt", 1, 1, 5*time.Minute)
+		r.Set("scaled_realtime_run_sessions", rt.stats["scaled_realtime_sessions"])
+		r.Require(rt.stats["scaled_realtime_sessions"] == 8 || rt.crashes > 0, "the scaled real-time run did not report its eight sessions")
+	} else {
+		r.Set("scaled_realtime_run_sessions", "not run: the interval constant could not be overlaid")
 	}
 	r.Assumptions = []string{"arrival stamps are wall-clock readings taken by the harness strictly between operations and used only as an ordering; the wall clock does not step backwards during a history",
 		"the 60-120 s band of the processor-level rule is unspecified and not probed"}
